@@ -206,7 +206,9 @@ def gen_hist(r, k):
         if v["periodic"]:
             v["P"] = v["w"] * v["nx"]
             v["c"] = V.dyadic(r, -3, 3, bits=2)
-            v["lower"] = v["c"] - v["P"] / 2
+            # the grid spans the period; it starts at the lower end of the variable's wrapping interval or a few bins
+            # away from it (then part of the wrapped values lie outside the grid: no bin)
+            v["lower"] = v["c"] - v["P"] / 2 + r.choice([0, 0, 0, 1, -1, 2]) * v["w"]
         else:
             v["lower"] = V.dyadic(r, -4, 4, bits=3)
         v["upper"] = v["lower"] + v["w"] * v["nx"]
@@ -238,7 +240,23 @@ def gen_hist(r, k):
             boundary = "r"
             zs = list(events[-1][1])   # a restart re-evaluates the configuration the state was written at
         events.append((boundary, zs))
-    return {"vars": vars_, "stepzero": stepzero, "events": events, "id": k}
+    c = {"vars": vars_, "stepzero": stepzero, "events": events, "id": k}
+    # absolute step numbers beyond 32 and 53 bits; a second histogram on the same variables that is deleted on the way;
+    # a configuration that is rejected in the middle of the session
+    c["step0"] = r.choice([0, 0, 2 ** 31 - 3, 2 ** 32 + 5, 2 ** 53 - 2, 2 ** 62])
+    c["tsf"] = r.choice([1, 1, 1, 2, 3, 5, 7])      # timeStepFactor: the bias sleeps unless the absolute step is a multiple
+    c["second"] = r.choice([None, None, "first", "last"])
+    c["delete_at"] = r.randint(1, nsteps - 1)
+    c["bad_config_at"] = r.randint(1, nsteps - 1) if r.random() < 0.3 else None
+    return c
+
+
+def hist_cfg_without_h2(cfg, h2):
+    """the configuration block without the lines of the second histogram (contiguous sub-list h2)"""
+    for k in range(len(cfg) - len(h2) + 1):
+        if cfg[k:k + len(h2)] == h2:
+            return cfg[:k] + cfg[k + len(h2):]
+    return cfg
 
 
 def hist_scenario(c, statefile):
@@ -255,7 +273,13 @@ def hist_scenario(c, statefile):
         if v["periodic"]:
             L += ["    period %r" % v["P"], "    wrapAround %r" % v["c"]]
         L += ["  }", "}"]
+    h2 = ["histogram {", "  name h2", "  colvars " + " ".join("v%d" % d for d in range(len(c["vars"]))), "  outputFile none",
+          "  histogramGrid {", "    width " + " ".join("%r" % (v["w"] * 2) for v in c["vars"]), "  }", "}"]
+    if c.get("second") == "first":
+        L += h2
     L += ["histogram {", "  name h", "  colvars " + " ".join("v%d" % d for d in range(len(c["vars"])))]
+    if c.get("tsf", 1) > 1:
+        L += ["  timeStepFactor %d" % c["tsf"]]
     if c["stepzero"]:
         L += ["  stepZeroData on"]
     L += ["  outputFileDX hout%d.h.dx" % c["id"]]
@@ -264,17 +288,30 @@ def hist_scenario(c, statefile):
               "    lowerBoundary " + " ".join("%r" % v["lower"] for v in c["vars"]),
               "    upperBoundary " + " ".join("%r" % v["upper"] for v in c["vars"]),
               "    width " + " ".join("%r" % v["w"] for v in c["vars"]), "  }"]
-    L += ["}", "EOF", "show atomf 0 energy 0 bias 0"]
+    L += ["}"]
+    if c.get("second") == "last":
+        L += h2
+    L += ["EOF", "show atomf 0 energy 0 bias 0"]
     cfg = L[L.index("config EOF"):L.index("EOF") + 1]
+    if c.get("step0"):
+        L.append("setstep %d" % c["step0"])
     nrest = 0
-    for boundary, zs in c["events"]:
+    deleted = not c.get("second")
+    for ne, (boundary, zs) in enumerate(c["events"]):
         for d, z in enumerate(zs):
             L.append("pos %d 0 0 %s" % (d + 1, V.hexf(z)))
+        if c.get("second") and not deleted and ne == c.get("delete_at"):
+            L.append("script cv bias h2 delete")
+            deleted = True
+        if c.get("bad_config_at") == ne:
+            L += ["config EOF", "histogram {", "  name hbad", "  colvars v0", "  gatherVectorColvars on", "}", "EOF"]
         if boundary == "r":
             nrest += 1
             rf = "%s.r%d" % (statefile, nrest)
-            # formatted and unformatted state files alternate (histogram write_state_data/read_state_data on a memory_stream)
-            L += ["save %s %s" % ("binary" if (c["id"] + nrest) % 2 else "text", rf), "fresh"] + cfg + ["load %s" % rf]
+            # the state travels as a formatted file, an unformatted file, an unformatted memory buffer or a formatted string
+            how = (c["id"] + nrest) % 4
+            L += ["save %s %s" % ("binary" if how in (1, 2) else "text", rf), "fresh"] + (cfg if not deleted else hist_cfg_without_h2(cfg, h2)) + \
+                 [("load %s", "load %s", "loadbuf %s", "loadstr %s")[how] % rf]
         elif boundary:
             L.append("runboundary")
         L.append("step")
@@ -292,6 +329,7 @@ def hist_model_case(c):
     parts += [str(len(c["events"]))]
     rel = 0
     first = True
+    ab = c.get("step0", 0)
     for boundary, zs in c["events"]:
         if first:
             first = False
@@ -299,6 +337,10 @@ def hist_model_case(c):
             rel = 0
         elif not boundary:
             rel += 1
+            ab += 1
+        if ab % c.get("tsf", 1) != 0:
+            parts += [str(rel), "1" if boundary is True else "0", "0"]      # the bias sleeps at this step: update() is not called
+            continue
         parts += [str(rel), "1" if boundary is True else "0", "1"]
         parts += ["W %d %s %s %s" % (1 if v["periodic"] else 0, V.hexf(v.get("c", 0.0)), V.hexf(v.get("P", 1.0)), V.hexf(z))
                   for v, z in zip(c["vars"], zs)]
@@ -315,6 +357,7 @@ def hist_oracle(c):
     counts = [0] * nt
     rel = 0
     first = True
+    ab = c.get("step0", 0)
     for boundary, zs in c["events"]:
         if first:
             first = False
@@ -322,7 +365,8 @@ def hist_oracle(c):
             rel = 0
         elif not boundary:
             rel += 1
-        elig = (rel > 0 and boundary is not True) or c["stepzero"]
+            ab += 1
+        elig = ((rel > 0 and boundary is not True) or c["stepzero"]) and ab % c.get("tsf", 1) == 0
         if not elig:
             continue
         a = 0
@@ -360,9 +404,18 @@ def check_hist_files(run, c, d, exp, model, scenario):
     dx = os.path.join(d, "hout%d.h.dx" % c["id"])
     if not c["events"] or not any(True for _ in exp):
         return
-    has_data = any(e > 0 for e in exp)
-    if not has_data:
-        return            # nothing is written for an empty histogram
+    # the files are written once the bias has been updated (colvarbias::has_data) since the instance was created: with a
+    # timeStepFactor the bias may sleep from the last restart to the end of the run
+    ab, awake = c.get("step0", 0), False
+    for ne, (boundary, zs) in enumerate(c["events"]):
+        if ne > 0 and boundary == "r":
+            awake = False
+        elif ne > 0 and not boundary:
+            ab += 1
+        if ab % c.get("tsf", 1) == 0:
+            awake = True
+    if not awake:
+        return
     g = {"mult": 1, "nd": nd, "nx": [v["nx"] for v in vs], "lower": [v["lower"] for v in vs], "upper": [v["upper"] for v in vs],
          "width": [v["w"] for v in vs], "per": [1 if v["periodic"] else 0 for v in vs], "data": [float(e) for e in exp]}
     if not os.path.exists(dat):
@@ -408,7 +461,7 @@ def meta_state_scenario(r, k):
     nd = r.choice([1, 1, 2])
     vs = []
     for d in range(nd):
-        lo = r.choice(gridio.NONDYADIC) * r.choice([1, 1, -1])
+        lo = r.choice(gridio.NONDYADIC[:7]) * r.choice([1, 1, -1])
         w = r.choice([0.5, 0.3, 0.25, 0.7])
         n = r.randint(4, 8)
         vs.append({"lower": lo, "w": w, "nx": n, "upper": lo + n * w})
@@ -423,7 +476,26 @@ def meta_state_scenario(r, k):
         for d, v in enumerate(vs):
             L.append("pos %d 0 0 %r" % (d + 1, v["lower"] + v["w"] * r.uniform(1.5, v["nx"] - 1.5)))
         L.append("step")
-    L += ["save %s meta%d.state" % ("binary" if k % 2 else "text", k), "postrun", "prefix metaB%d" % k, "fresh"] + cfg + ["load meta%d.state" % k, "postrun"]
+    # the job that loads the state is configured as the first one, or (legally) with wider boundaries: then the grid comes
+    # back as it was saved (rebinGrids off) or is mapped onto the newly configured grid (rebinGrids on)
+    mode = ("same", "wider", "wider-rebin")[k % 3]
+    vb = [dict(v) for v in vs]
+    cfgb = list(cfg)
+    if mode != "same":
+        for v in vb:
+            v["e1"], e2 = r.randint(0, 2), r.randint(0, 2)
+            if v["e1"] + e2 == 0:
+                e2 = 1
+            v["lower"], v["upper"], v["nx"] = v["lower"] - v["e1"] * v["w"], v["upper"] + e2 * v["w"], v["nx"] + v["e1"] + e2
+        cfgb = ["config END"]
+        for d, v in enumerate(vb):
+            cfgb += ["colvar {", "  name v%d" % d, "  lowerBoundary %r" % v["lower"], "  upperBoundary %r" % v["upper"], "  width %r" % v["w"],
+                     "  distanceZ {", "    main { atomNumbers %d }" % (d + 1), "    ref { dummyAtom (0,0,0) }", "    axis (0,0,1)", "  }", "}"]
+        cfgb += ["metadynamics {", "  name m", "  colvars " + " ".join("v%d" % d for d in range(nd)), "  hillWeight 0.25", "  hillWidth 1.0",
+                 "  newHillFrequency 1", "  useGrids on", "  writeFreeEnergyFile on"] + (["  rebinGrids on"] if mode == "wider-rebin" else []) + ["}", "END"]
+    L += ["save %s meta%d.state" % ("binary" if k % 2 else "text", k), "postrun", "prefix metaB%d" % k, "fresh"] + cfgb + ["load meta%d.state" % k, "postrun"]
+    for v, b in zip(vs, vb):
+        v["mode"], v["b"] = mode, b
     return vs, "\n".join(L) + "\n"
 
 
@@ -453,6 +525,28 @@ def check_meta_states(run, r, vsim, d, n):
                 gridio.close(a[0], b[0], 1e-12) and gridio.close(a[1], b[1], 1e-12) and a[2] == b[2] and a[3] == b[3] for a, b in zip(h, want))
         if not same(ha):
             run.mismatch("state:meta:config", {"scenario": scn}, ha, want)
+            continue
+        mode = vs[0].get("mode", "same")
+        run.dist("state:meta:mode=" + mode)
+        if mode == "wider-rebin":
+            # the saved grid mapped onto the newly configured one (map_grid): the new geometry, the saved values in the bins
+            # they had (the PMF is defined up to a constant)
+            wantb = [(v["b"]["lower"], v["b"]["w"], v["b"]["nx"], 0) for v in vs]
+            okb = hb is not None and len(hb) == len(wantb) and all(gridio.close(a[0], b[0], 1e-12) and gridio.close(a[1], b[1], 1e-12) and a[2] == b[2]
+                                                                   for a, b in zip(hb, wantb))
+            bad = None if okb else "the re-binned grid has lower boundary/width/size %s, configured %s" % ([h_[:3] for h_ in hb] if hb else None, [w_[:3] for w_ in wantb])
+            if okb and len(vs) == 1:
+                da = [float(l.split()[1]) for l in open(fa).read().split("\n") if l.strip() and not l.startswith("#")]
+                db = [float(l.split()[1]) for l in open(fb).read().split("\n") if l.strip() and not l.startswith("#")]
+                e1 = vs[0]["b"]["e1"]
+                diffs = [db[i + e1] - da[i] for i in range(len(da))] if len(db) >= len(da) + e1 else None
+                if diffs is None or max(diffs) - min(diffs) > 1e-9 * max(1.0, max(abs(x) for x in da)):
+                    bad = "the re-binned PMF %s is not the saved PMF %s moved by %d bins (up to a constant)" % (db[:12], da[:12], e1)
+            if bad:
+                run.violation("io:state:metadynamics-rebin", "state of a metadynamics bias loaded by a job configured with wider boundaries and rebinGrids on: " + bad,
+                              {"kind": "hist", "scenario": scn})
+            for f in glob.glob(os.path.join(d, "meta?%d.*" % k)) + glob.glob(os.path.join(d, "meta%d.*" % k)):
+                os.remove(f)
             continue
         if not same(hb):
             run.violation("io:roundtrip:state:metadynamics", "after saving and loading the state of a metadynamics bias the energy grid has lower boundary/width/size %s; the grid that was saved (and is configured) has %s" % (
@@ -528,6 +622,102 @@ def check_bad_histogram_configs(run, vsim, d):
         os.remove(sc)
 
 
+def check_extended_histograms(run, r, vsim, model, d, n):
+    """histograms of an extended-Lagrangian variable: by default the extended coordinate is binned, with
+    bypassExtendedLagrangian the actual value, and `colvars v v` gives the joint histogram (actual value, extended coordinate):
+    colvar_grid::request_actual_value / use_actual_value.  The extended coordinate is read from the values the module reports."""
+    for k in range(n):
+        w = r.choice([0.5, 0.25, 1.0]); nx = r.randint(3, 8); lo = V.dyadic(r, -2, 2, bits=2)
+        up = lo + nx * w
+        L = ["natoms 1", "temperature 300", "new", "config END", "colvar {", "  name v0", "  lowerBoundary %r" % lo, "  upperBoundary %r" % up,
+             "  width %r" % w, "  extendedLagrangian on", "  extendedFluctuation %r" % (w / 2), "  extendedTimeConstant 50",
+             "  distanceZ {", "    main { atomNumbers 1 }", "    ref { dummyAtom (0,0,0) }", "    axis (0,0,1)", "  }", "}",
+             "histogram {", "  name h", "  colvars v0 v0", "}",
+             "histogram {", "  name hb", "  colvars v0", "  bypassExtendedLagrangian on", "}",
+             "histogram {", "  name he", "  colvars v0", "}", "END", "show atomf 0 energy 0 bias 0"]
+        zs = []
+        for s_ in range(r.randint(5, 10)):
+            q = r.random()
+            z = lo + r.randint(-1, nx + 1) * w if q < 0.3 else (lo - r.randint(1, 7) * w / 8 if q < 0.4 else lo + r.randint(0, 8 * nx - 1) * w / 8 + w / 16)
+            zs.append(z)
+            L += ["pos 1 0 0 %s" % V.hexf(z), "step"]
+        sf = os.path.join(d, "ext%d.state" % k)
+        L.append("save text %s" % sf)
+        scn = "\n".join(L) + "\n"
+        sc = os.path.join(d, "ext%d.scn" % k)
+        open(sc, "w").write(scn)
+        rc, o, e = V.sh([vsim, sc], cwd=d, timeout=120)
+        run.count("exthist%d" % k, True)
+        run.dist("hist:extended")
+        ext = [float.fromhex(l.split()[2]) for l in o.split("\n") if l.startswith("CV v0 ")]
+        if "CONFIG err=ok ncv=1 nbias=3" not in o or len(ext) != len(zs) or not os.path.exists(sf):
+            run.mismatch("hist:extended:run", {"scenario": scn}, o[-300:], "three histograms configured, one value per step")
+            continue
+        def b(x):
+            q = (Fr(x) - Fr(lo)) / Fr(w)
+            return q.numerator // q.denominator
+        eb = [0.0] * nx; ee = [0.0] * nx; ej = [0.0] * (nx * nx)
+        for t in range(1, len(zs)):          # step 0 is not eligible
+            ia, ie = b(zs[t]), b(ext[t])
+            if 0 <= ia < nx:
+                eb[ia] += 1
+            if 0 <= ie < nx:
+                ee[ie] += 1
+            if 0 <= ia < nx and 0 <= ie < nx:
+                ej[ia * nx + ie] += 1
+        got = {nm: parse_hist_state(sf, nm) for nm in ("h", "hb", "he")}
+        for nm, exp_, what in (("hb", eb, "bypassExtendedLagrangian: the actual values %s" % zs[1:]), ("he", ee, "the extended coordinate %s" % ext[1:]),
+                               ("h", ej, "`colvars v0 v0`: (actual value, extended coordinate)")):
+            if got[nm] != exp_:
+                run.violation("hist:extended:" + nm, "histogram of an extended-Lagrangian variable (%s): counts %s, the exact histogram is %s" % (what, got[nm], exp_),
+                              {"kind": "hist", "scenario": scn, "expected": exp_, "got": got[nm]})
+        # the model on the same samples (joint histogram: two values per sample)
+        parts = ["HIST", "0", "0", "2", V.hexf(lo), V.hexf(lo), V.hexf(w), V.hexf(w), str(nx), str(nx), str(len(zs))]
+        for t in range(len(zs)):
+            parts += [str(t), "0", "1", V.hexf(zs[t]), V.hexf(ext[t]), V.hexf(1.0)]
+        rcm, mo, em = V.run_lines(model, [" ".join(parts)])
+        mv = [float.fromhex(t) for t in mo[0].split()] if mo else None
+        if mv != got["h"]:
+            run.mismatch("hist:extended:h", {"scenario": scn}, got["h"], mv)
+        for f in (sf, sc):
+            if os.path.exists(f):
+                os.remove(f)
+
+
+def check_hist_state_other_grid(run, vsim, d):
+    """a histogram state (raw counts, no grid parameters) loaded by a job whose grid legally differs: more or fewer bins must be
+    an error; the same number of bins on other boundaries cannot be noticed by the reader (recorded finding)"""
+    def cfg(lo, up, w):
+        return ["config END", "colvar {", "  name v0", "  lowerBoundary %r" % lo, "  upperBoundary %r" % up, "  width %r" % w,
+                "  distanceZ {", "    main { atomNumbers 1 }", "    ref { dummyAtom (0,0,0) }", "    axis (0,0,1)", "  }", "}",
+                "histogram {", "  name h", "  colvars v0", "}", "END"]
+    for name, (lo, up, w) in (("more", (0.0, 6.0, 1.0)), ("fewer", (0.0, 3.0, 1.0)), ("shifted", (1.0, 5.0, 1.0))):
+        L = ["natoms 1", "new"] + cfg(0.0, 4.0, 1.0) + ["show atomf 0 energy 0 bias 0 cv 0"]
+        for z in [0.5, 1.5, 1.5, 3.5, 2.5]:
+            L += ["pos 1 0 0 %r" % z, "step"]
+        L += ["save text og_%s.state" % name, "fresh"] + cfg(lo, up, w) + ["load og_%s.state" % name, "save text og2_%s.state" % name]
+        scn = "\n".join(L) + "\n"
+        sc = os.path.join(d, "og_%s.scn" % name)
+        open(sc, "w").write(scn)
+        rc, o, e = V.sh([vsim, sc], cwd=d, timeout=60)
+        run.count("hist-state-other-grid-" + name, True)
+        run.dist("hist:state-other-grid")
+        load = [l for l in o.split("\n") if l.startswith("LOAD")]
+        if name in ("more", "fewer"):
+            if rc != 0 or not load or "err=ok" in load[0]:
+                run.violation("hist:state-other-grid:" + name, "a histogram state of 4 bins loaded by a histogram of %s bins is accepted (%s)" % (
+                    "6" if name == "more" else "3", load), {"kind": "hist", "scenario": scn})
+        else:
+            got = parse_hist_state(os.path.join(d, "og2_shifted.state"))
+            # samples 0.5 1.5 1.5 3.5 2.5 at steps 0..4 (step 0 not eligible): on [1,5) the counts would be 2 1 1 0
+            if rc != 0 or (load and "err=ok" in load[0] and got != [2.0, 1.0, 1.0, 0.0]):
+                run.violation("hist:state-into-shifted-grid", "a histogram accumulated on [0,4) (counts 0 2 1 1) and loaded by a job configured on [1,5) continues with %s: "
+                              "the counts are attributed to bins that do not contain the samples (on [1,5) they are 2 1 1 0)" % got, {"kind": "hist", "scenario": scn})
+        for f in glob.glob(os.path.join(d, "og*_%s.*" % name)) + [sc]:
+            if os.path.exists(f):
+                os.remove(f)
+
+
 def check_vector_histogram(run, vsim, d):
     """vector variables gathered into one histogram (gatherVectorColvars, weights): the documented configuration"""
     sc = os.path.join(d, "vec.scn")
@@ -553,13 +743,13 @@ def check_vector_histogram(run, vsim, d):
 
 
 def gen_vec_hist(r, k):
-    nvar = r.choice([1, 1, 2])
-    m = r.choice([1, 2])                      # atoms per variable: 3m components
+    nvar = r.choice([1, 1, 2, 3])
+    m = r.choice([1, 2, 3])                   # atoms per variable: 3m components
     size = 3 * m
     vs = []
     for d in range(nvar):
         w = r.choice([1.0, 0.5, 0.25, 2.0])
-        vs.append({"lower": V.dyadic(r, -3, 3, bits=2), "w": w, "nx": r.randint(1, 6)})
+        vs.append({"lower": V.dyadic(r, -3, 3, bits=2), "w": w, "nx": r.randint(1, 6 if nvar < 3 else 4)})
     for v in vs:
         v["upper"] = v["lower"] + v["w"] * v["nx"]
     wmode = r.random()
@@ -758,6 +948,14 @@ def check(run):
         if "CONFIG err=ok" not in o or not os.path.exists(sf):
             run.mismatch("hist:config", {"scenario": open(sc).read()}, o[-300:], "accepted")
             continue
+        # every auxiliary command of the scenario must have done what it says (loads, deletion of the second histogram;
+        # the rejected configuration must be rejected)
+        import re as _re
+        aux = [l for l in o.split("\n") if l.startswith("UNKNOWN-COMMAND") or (l.startswith("LOAD") and "err=ok" not in l)
+               or (l.startswith("SCRIPT") and "err=ok" not in l) or (l.startswith("SAVE") and "err=ok" not in l)]
+        nbad = sum(1 for l in o.split("\n") if l.startswith("CONFIG err=") and "err=ok" not in l)
+        if aux or nbad != (1 if c.get("bad_config_at") is not None else 0):
+            run.mismatch("hist:scenario-commands", {"scenario": open(sc).read()}, (aux + [l for l in o.split("\n") if l.startswith("CONFIG")])[:6], "all ok")
         got = parse_hist_state(sf)
         counted = sum(exp)
         rejected = sum(1 for b, _ in c["events"]) - counted
@@ -778,8 +976,10 @@ def check(run):
         for f in [sf, sc] + glob.glob(sf + ".r*") + glob.glob(os.path.join(d, "hout%d.*" % k)):
             if os.path.exists(f):
                 os.remove(f)
-    check_meta_states(run, V.rng("C15meta"), vsim, d, 6 if quick else 60)
+    check_meta_states(run, V.rng("C15meta"), vsim, d, 9 if quick else 90)
     check_bad_histogram_configs(run, vsim, d)
+    check_hist_state_other_grid(run, vsim, d)
+    check_extended_histograms(run, V.rng("C15ext"), vsim, model, d, 4 if quick else 60)
     if check_vector_histogram(run, vsim, d):
         check_vector_scenarios(run, V.rng("C15vec"), vsim, model, d, 30 if quick else 400)
     run.cov["correspondence"].update({"unit_cases": len(cases), "hist_scenarios": len(hcases)})
